@@ -18,6 +18,7 @@
 
 #include "interrogate_interface.h"
 #include "interrogate_request.h"
+#include "interrogateDatabase.h"
 #include "load_dso.h"
 #include "pnotify.h"
 #include "panda_getopt_long.h"
@@ -218,6 +219,19 @@ int write_python_table_native(std::ostream &out) {
         dependencies[library_name];
       }
     // }
+  }
+
+  // A library may contribute nothing but published constants.  Those are
+  // added to the module by its BuildInstants function, so it has to be
+  // referenced like any other.
+  int num_manifests = interrogate_number_of_manifests();
+  for (int mi = 0; mi < num_manifests; mi++) {
+    const InterrogateManifest &manifest =
+      InterrogateDatabase::get_ptr()->get_manifest(interrogate_get_manifest(mi));
+    if (manifest.has_module_name() && module_name == manifest.get_module_name() &&
+        manifest.has_library_name()) {
+      dependencies[manifest.get_library_name()];
+    }
   }
 
   for (int ti = 0; ti < interrogate_number_of_global_types(); ti++) {
